@@ -283,6 +283,7 @@ func (x *Exec) signed(c *Client, userIdx int, m *ref.Msg, defect string, seed ui
 	hmacMode := ""
 	alter := false
 	emptyKey := false
+	keyRealm := ""
 	appendNonce := false
 	switch defect {
 	case "":
@@ -388,6 +389,12 @@ func (x *Exec) signed(c *Client, userIdx int, m *ref.Msg, defect string, seed ui
 		valid = false
 	case "other-realm":
 		cr.realm = "other.realm" // consistent request under another realm: valid by definition (§8)
+	case "realm-attr-other-key-own":
+		// REALM names another realm while the HMAC key is the user's key in the server's realm: the
+		// key the handler returns for the presented username and realm is another one
+		keyRealm = cr.realm
+		cr.realm = "other.realm"
+		valid = false
 	default:
 		panic("unknown defect " + defect)
 	}
@@ -405,7 +412,10 @@ func (x *Exec) signed(c *Client, userIdx int, m *ref.Msg, defect string, seed ui
 	if !withMI {
 		return raw, valid, judged
 	}
-	key := ref.LongTermKey(cr.user, cr.realm, cr.pass)
+	if keyRealm == "" {
+		keyRealm = cr.realm
+	}
+	key := ref.LongTermKey(cr.user, keyRealm, cr.pass)
 	if emptyKey {
 		key = nil
 	}
